@@ -113,7 +113,7 @@ pub fn register(l: &mut Vec<Obl>) {
             let w = <$W as palette::white_point::WhitePoint<f64>>::get_xyz();
             let cond = crate::reference::cam16::conditions([w.x * 100.0, w.y * 100.0, w.z * 100.0], $la, 20.0, $sur);
             obl!(l; concat!("c16_forward_vs_published_", $key), "C16", $tier,
-                concat!("the forward model equals the published CAM16 equations (Li et al. 2017, Appendix A, transcribed independently incl. the viewing-condition quantities): lightness J and brightness Q within 1e-6 relative, chroma C, colourfulness M and saturation s within 1e-5 relative + 1e-6, hue angle h within 1e-6 degrees modulo 360, for every XYZ in [0.05, 1]^3; viewing conditions ", $key),
+                concat!("the forward model equals the published CAM16 equations (Li et al. 2017, Appendix A, transcribed independently incl. the viewing-condition quantities): lightness J and brightness Q within 1e-6 relative, chroma C and colourfulness M within 1e-5 relative + 1e-6, saturation s within 1e-5 relative + 1e-4 (s = 100 sqrt(M/Q) amplifies rounding noise near the achromatic axis), hue angle h within 1e-6 degrees modulo 360, for every XYZ in [0.05, 1]^3; viewing conditions ", $key),
                 ["Cam16::from_xyz", "cam16::math::xyz_to_cam16", "cam16::math::prepare_parameters", "cam16::math::DependentParameters::adapt"],
                 [var("x", 0.05, 1.0), var("y", 0.05, 1.0), var("z", 0.05, 1.0)];
                 |v| {
@@ -127,7 +127,7 @@ pub fn register(l: &mut Vec<Obl>) {
                     r.goal("brightness", rel(got.brightness, want.q, 1e-6, 1e-9));
                     r.goal("chroma", rel(got.chroma, want.c, 1e-5, 1e-6));
                     r.goal("colorfulness", rel(got.colorfulness, want.m, 1e-5, 1e-6));
-                    r.goal("saturation", rel(got.saturation, want.s, 1e-5, 1e-6));
+                    r.goal("saturation", rel(got.saturation, want.s, 1e-5, 1e-4));
                     // hue angle h = atan2(b, a) in degrees (modulo 360), step 4 of the paper
                     r.goal("hue", hue_close(got.hue.into_raw_degrees(), want.b.atan2_(want.a) * T::k(180.0 / core::f64::consts::PI), 1e-6));
                     r
@@ -137,6 +137,35 @@ pub fn register(l: &mut Vec<Obl>) {
     forward_vs_li!("d65_la40_average", wp::D65, 40.0, palette::cam16::Surround::Average, (1.0, 0.69, 1.0), Tier::Quick);
     forward_vs_li!("d65_la40_dim", wp::D65, 40.0, palette::cam16::Surround::Dim, (0.9, 0.59, 0.9), Tier::Quick);
     forward_vs_li!("d50_la64_dark", wp::D50, 64.0, palette::cam16::Surround::Dark, (0.8, 0.525, 0.8), Tier::Quick);
+    // user-set degree of adaptation (Discounting::Custom) under non-average surrounds, forward and inverse
+    macro_rules! custom_d {
+        ($key:literal, $W:ty, $la:expr, $surround:expr, $sur:expr, $d:expr) => {{
+            let w = <$W as palette::white_point::WhitePoint<f64>>::get_xyz();
+            let cond = crate::reference::cam16::conditions_d([w.x * 100.0, w.y * 100.0, w.z * 100.0], $la, 20.0, $sur, Some($d));
+            obl!(l; concat!("c16_forward_vs_published_custom_discounting_", $key), "C16", Tier::Quick,
+                concat!("forward model with a user-set degree of adaptation D (Discounting::Custom) equals the published equations with that D: J, Q within 1e-6 relative, C, M within 1e-5 relative + 1e-6, s within 1e-5 relative + 1e-4, for every XYZ in [0.05, 1]^3; ", $key),
+                ["Cam16::from_xyz", "cam16::math::prepare_parameters (Discounting::Custom)"],
+                [var("x", 0.05, 1.0), var("y", 0.05, 1.0), var("z", 0.05, 1.0)];
+                |v| {
+                    let mut r = Res::<B>::new();
+                    let mut p = Parameters::<palette::cam16::StaticWp<$W>, <T as palette::num::FromScalar>::Scalar>::default_static_wp($la);
+                    p.surround = $surround;
+                    p.discounting = palette::cam16::Discounting::Custom($d);
+                    let got = Cam16::<T>::from_xyz(Xyz::<$W, T>::new(v[0], v[1], v[2]), p.bake());
+                    let want = crate::reference::cam16::forward(v[0] * T::k(100.0), v[1] * T::k(100.0), v[2] * T::k(100.0), &cond);
+                    let rel = |a: T, b: T, rt: f64, at: f64| (a - b).abs_().le(b.abs_() * T::k(rt) + T::k(at));
+                    r.goal("lightness", rel(got.lightness, want.j, 1e-6, 1e-9));
+                    r.goal("brightness", rel(got.brightness, want.q, 1e-6, 1e-9));
+                    r.goal("chroma", rel(got.chroma, want.c, 1e-5, 1e-6));
+                    r.goal("colorfulness", rel(got.colorfulness, want.m, 1e-5, 1e-6));
+                    r.goal("saturation", rel(got.saturation, want.s, 1e-5, 1e-4));
+                    r
+                });
+        }};
+    }
+    custom_d!("d65_la40_dim_d1", wp::D65, 40.0, palette::cam16::Surround::Dim, (0.9, 0.59, 0.9), 1.0);
+    custom_d!("d50_la64_dark_d0_6", wp::D50, 64.0, palette::cam16::Surround::Dark, (0.8, 0.525, 0.8), 0.6);
+    custom_d!("d65_la40_average_d0", wp::D65, 40.0, palette::cam16::Surround::Average, (1.0, 0.69, 1.0), 0.0);
     forward_vs_li!("d65_la318_dim", wp::D65, 318.0, palette::cam16::Surround::Dim, (0.9, 0.59, 0.9), Tier::Quick);
     forward_vs_li!("d50_la4_average", wp::D50, 4.0, palette::cam16::Surround::Average, (1.0, 0.69, 1.0), Tier::Quick);
 
